@@ -56,6 +56,8 @@ VFind(r) ==
                           locs == [k \in 1..Len(nl) |-> nl[k].loc]
                       IN  IF locs # r.locs THEN Rej("nodelist differs", <<ToJson(locs)>>)
                           ELSE IF Has(r, "vok") /\ ~r.vok THEN Rej("node value is not the value at its location", <<>>)
+                          ELSE IF Has(r, "one_ok") /\ ~r.one_ok THEN Rej("C15 find_one() is not the first node of find()", <<>>)
+                          ELSE IF Has(r, "iter_ok") /\ ~r.iter_ok THEN Rej("C15 list(finditer()) differs from find()", <<>>)
                           ELSE IF Has(r, "paths") /\ r.paths # [k \in 1..Len(nl) |-> NormalizedPath(nl[k].loc)]
                               THEN Rej("normalized path differs", <<>>)
                           ELSE Acc
@@ -249,6 +251,26 @@ VNondet(r) ==
 
 (* ---- bounded traversal (C18) --------------------------------------------------------- *)
 \* r.limit: max_recursion_depth; r.mode: "det" | "rnd"; r.out: "ok" | "raise" | "timeout"
+RECURSIVE HitSegs(_, _, _, _, _), HitExpr(_, _, _, _, _)
+\* does evaluating the segments on the nodelist apply a descendant segment to a node nested deeper than lim?
+HitSegs(segs, nl, root, reg, lim) ==
+    IF segs = <<>> THEN FALSE
+    ELSE LET seg == Head(segs)
+         IN  \/ (seg.desc /\ \E k \in 1..Len(nl) : Nesting(nl[k].v) > lim)
+             \/ \E k \in 1..Len(nl) :
+                    LET inputs == IF seg.desc THEN DescOrSelf(nl[k]) ELSE <<nl[k]>>
+                    IN  \E d \in 1..Len(inputs) : \E j \in 1..Len(seg.sels) :
+                            /\ seg.sels[j].t = "filter"
+                            /\ LET cs == Children(inputs[d])
+                               IN  \E c \in 1..Len(cs) : HitExpr(seg.sels[j].e, cs[c], root, reg, lim)
+             \/ HitSegs(Tail(segs), ApplySeg(seg, nl, root, reg), root, reg, lim)
+HitExpr(e, cur, root, reg, lim) ==
+    CASE e.t \in {"or", "and", "cmp"} -> HitExpr(e.l, cur, root, reg, lim) \/ HitExpr(e.r, cur, root, reg, lim)
+      [] e.t \in {"not", "paren"}     -> HitExpr(e.e, cur, root, reg, lim)
+      [] e.t = "query" -> HitSegs(e.segs, <<IF e.abs THEN RootNode(root) ELSE cur>>, root, reg, lim)
+      [] e.t = "call"  -> \E k \in 1..Len(e.args) : HitExpr(e.args[k], cur, root, reg, lim)
+      [] OTHER -> FALSE
+
 \* the document is delivered as a spine (outermost level first) plus a leaf, and rebuilt here
 RECURSIVE BuildSpine(_, _)
 BuildSpine(levels, leaf) ==
@@ -260,11 +282,11 @@ BuildSpine(levels, leaf) ==
 VDepth(rr) ==
     LET r    == [rr EXCEPT !.leaf = rr.leaf] @@ [doc |-> BuildSpine(rr.spine, rr.leaf)]
         segs == Parse(r.q, FALSE).v
-        \* the limit counts from each node the (first) descendant segment is applied to
-        firstDesc == CHOOSE j \in 1..Len(segs) : segs[j].desc /\ \A i \in 1..(j - 1) : ~segs[i].desc
-        inputs == EvalSegs(SubSeq(segs, 1, firstDesc - 1), <<RootNode(r.doc)>>, r.doc, Builtins)
-        deep == \E k \in 1..Len(inputs) : Nesting(inputs[k].v) > r.limit
-        deepest == IF inputs = <<>> THEN 0 ELSE LET S == {Nesting(inputs[k].v) : k \in 1..Len(inputs)} IN CHOOSE x \in S : \A y \in S : y <= x
+        \* the limit counts from each node a descendant segment is applied to, wherever that segment is
+        \* (top level, inside a filter, inside a function argument): evaluation is eager, so every
+        \* descendant application is performed
+        deep == HitSegs(segs, <<RootNode(r.doc)>>, r.doc, Builtins, r.limit)
+        deepest == Nesting(r.doc)
     IN  IF r.out = "timeout" THEN Rej("C18 traversal did not finish within the time limit", <<>>)
         ELSE IF deep /\ r.out # "raise" THEN Rej("C18 data nested deeper than the limit did not raise", <<deepest, r.limit>>)
         ELSE IF deep /\ r.cls # "JSONPathRecursionError" THEN Rej("C18 deep data raised something else than JSONPathRecursionError", <<r.cls>>)
